@@ -242,6 +242,15 @@ def g10_g11(ctx):
         if a != b:
             r11.fail('%s:%s:sibling-differs' % (g.crate, inf.name), '%s/%s:%d' % (g.crate, inf.file, inf.line),
                      '`%s` is not `%s` with many_till(X, eof) relaxed to many0(X): %s  vs  %s' % (inf.name, sf.name, b[:120], a[:120]))
+        # same side effects (calls that are not parser applications): a reset / scope call present in one sibling only
+        # makes the two modes start from different state
+        eff_s = [sx.render(st[1]).replace(' ', '') for st in sf.stmts if st[0] == 'other']
+        eff_i = [sx.render(st[1]).replace(' ', '') for st in inf.stmts if st[0] == 'other']
+        r11.inst('sibling-effects:%s' % s_e, {'strict_effects': eff_s, 'incomplete_effects': eff_i})
+        if eff_s != eff_i:
+            r11.fail('%s:%s:sibling-effects-differ' % (g.crate, inf.name), '%s/%s:%d' % (g.crate, inf.file, inf.line),
+                     '`%s` performs %s but its strict sibling `%s` performs %s: the two modes do not parse from the same state, so they '
+                     'can return different trees for an input both accept' % (inf.name, eff_i or 'no effect', sf.name, eff_s or 'no effect'))
         # same node construction (modulo the dropped eof output)
         if sf.tail[0] == 'ok' and inf.tail[0] == 'ok':
             if sx.render(sf.tail[2]) != sx.render(inf.tail[2]):
